@@ -15,8 +15,14 @@ pub struct FaultySink {
     /// to (a log-line writer stamping its lines): the library is re-entered from
     /// inside its own write call
     pub reentrant: bool,
+    /// the caller's sink itself panics in its i-th write (a bug in caller code, unwinding
+    /// through the crate); what is checked is that the crate still works afterwards
+    pub panic_at: Option<usize>,
     depth: u8,
 }
+
+/// Payload of the injected sink panic, so that the harness can tell it from a panic of the crate.
+pub struct InjectedSinkPanic;
 
 impl FaultySink {
     pub fn new(fail_at: Option<usize>, capacity: Option<usize>, then_refuse_alloc: Option<bool>) -> Self {
@@ -28,6 +34,7 @@ impl FaultySink {
             then_refuse_alloc,
             fired: false,
             reentrant: false,
+            panic_at: None,
             depth: 0,
         }
     }
@@ -64,6 +71,10 @@ impl fmt::Write for FaultySink {
                 let _ = f.format(sqldatetime::Date::MAX, &mut inner);
             }
             self.depth = 0;
+        }
+        if self.panic_at == Some(idx) {
+            self.fired = true;
+            std::panic::panic_any(InjectedSinkPanic);
         }
         if self.fail_at == Some(idx) {
             return self.fail();
